@@ -491,6 +491,7 @@ func runC13(c *Ctx) {
 		c.Check(multi && none, "R13.2", "ResolveComment:outcome", pos, "several matches and no match are errors", "ResolveComment does not refuse several matches / no match")
 	}
 	checkC13Scans(c)
+	checkForgetsAfterRemoval(c, "R14.2")
 	// R13.3
 	for _, t := range []string{"Id", "CombinedId"} {
 		fn := w.Method("entity", t, "HasPrefix")
@@ -930,6 +931,77 @@ func checkC13Scans(c *Ctx) {
 		}
 		return succ == te
 	})
+	// the first argument is always tried as a prefix: the only way around ResolvePrefix is "no argument"
+	noArgEdge := func(b *ssa.BasicBlock, succ int) bool {
+		if len(b.Instrs) == 0 {
+			return false
+		}
+		iff, isIf := b.Instrs[len(b.Instrs)-1].(*ssa.If)
+		if !isIf {
+			return false
+		}
+		bo, isBo := iff.Cond.(*ssa.BinOp)
+		if !isBo || !isCmpOp(bo.Op) {
+			return false
+		}
+		op, lenV, kV := bo.Op, bo.X, bo.Y
+		if _, isK := constInt(kV); !isK {
+			op, lenV, kV = swapOp(bo.Op), bo.Y, bo.X
+		}
+		k, isK := constInt(kV)
+		lc, isLen := lenV.(*ssa.Call)
+		if !isK || !isLen {
+			return false
+		}
+		if bi, isB := lc.Common().Value.(*ssa.Builtin); !isB || bi.Name() != "len" {
+			return false
+		}
+		if pr, isP := lc.Common().Args[0].(*ssa.Parameter); !isP || pr != rp.Parent().Params[len(rp.Parent().Params)-1] {
+			return false
+		}
+		eval := func(n int64) int {
+			t := false
+			switch op {
+			case token.GTR:
+				t = n > k
+			case token.GEQ:
+				t = n >= k
+			case token.LSS:
+				t = n < k
+			case token.LEQ:
+				t = n <= k
+			case token.EQL:
+				t = n == k
+			case token.NEQ:
+				t = n != k
+			}
+			if t {
+				return 0
+			}
+			return 1
+		}
+		e0 := eval(0)
+		return succ == e0 && eval(1) != e0 && eval(2) != e0 && eval(1<<20) != e0
+	}
+	bypass := reachWithoutEdge(sel.Blocks[0], selCall.Block(), func(b *ssa.BasicBlock, succ int) bool {
+		return b.Succs[succ] == rp.Block() || noArgEdge(b, succ)
+	}) && rp.Block() != sel.Blocks[0]
+	argOK := false
+	if len(rp.Common().Args) >= 1 {
+		a := rp.Common().Args[len(rp.Common().Args)-1]
+		if u, isU := a.(*ssa.UnOp); isU {
+			if ia, isIA := u.X.(*ssa.IndexAddr); isIA {
+				if k, isK := constInt(ia.Index); isK && k == 0 {
+					if pr, isP := ia.X.(*ssa.Parameter); isP && pr == sel.Params[len(sel.Params)-1] {
+						argOK = true
+					}
+				}
+			}
+		}
+	}
+	c.Check(!bypass && argOK, "R13.5", "select.Resolve:first-argument-always-tried", w.InstrPos(rp),
+		"ResolvePrefix(args[0]) is skipped only when there is no argument",
+		"the selected entity can be reached without trying args[0] as a prefix although an argument was given (or the prefix tried is not args[0]): a prefix the user typed is ignored and the command acts on the selected entity")
 	c.Check(gate > 0 && !leak && otherFails, "R13.5", "select.Resolve:fallback-only-on-not-found", w.InstrPos(selCall),
 		"the selection is consulted only after IsErrNotFound(err of ResolvePrefix); every other failure is returned",
 		"a failure of ResolvePrefix(args[0]) other than not-found (e.g. an ambiguous prefix) falls through to the selected entity: the command then acts on an entity the prefix does not designate")
